@@ -1,3 +1,7 @@
+#include <occa/defines.hpp>
+#if OCCA_THREAD_SHARABLE_ENABLED
+#  include <occa/utils/mutex.hpp>
+#endif
 #include <algorithm>
 
 #include <occa/defines.hpp>
@@ -247,11 +251,23 @@ namespace occa {
     return *this;
   }
 
+#if OCCA_THREAD_SHARABLE_ENABLED
+  // The flattened list is a lazily filled cache inside (usually global) dtype objects:
+  // threads validating kernel arguments at the same time must not fill it concurrently
+  static mutex_t flattenedDtypeMutex;
+#endif
+
   void dtype_t::setFlattenedDtype() const {
     const dtype_t &self_ = self();
+#if OCCA_THREAD_SHARABLE_ENABLED
+    flattenedDtypeMutex.lock();
+#endif
     if (!self_.flatDtype.size()) {
       self_.addFlatDtypes(flatDtype);
     }
+#if OCCA_THREAD_SHARABLE_ENABLED
+    flattenedDtypeMutex.unlock();
+#endif
   }
 
   void dtype_t::addFlatDtypes(dtypeVector_t &vec) const {
